@@ -59,6 +59,8 @@ static std::string c01Once(const Instance& I, const ParamSet& cfg, int loadMode,
       {
          size_t c = r.find(':');
          tag = "cert." + r.substr(0, c);
+         // root-cause annotation: the simplex loop itself announced that it stops with violations and calls the result OPTIMAL
+         if(lc.buf.despiteNotes > 0) tag += "+terminated-despite-violations";
          if(detail) *detail = r.substr(c + 1);
       }
       else if(I.T.known && I.T.robust && I.T.status == REF_OPTIMAL)
@@ -94,6 +96,7 @@ static std::string c01Once(const Instance& I, const ParamSet& cfg, int loadMode,
       }
    }
    if(count && lc.buf.resolveNotes > 0) S.count("c01.silent_resolves");
+   if(count && lc.buf.despiteNotes > 0) S.count("c01.terminated_despite_violations");
    return tag;
 }
 
